@@ -9,7 +9,7 @@ Model of the deferred I/O error protocol (C10).
 * The single-document reader entry points (`from_reader_with_options`, `*_valid`, `*_validate`,
   `with_deserializer_from_reader_with_options`; src/lib.rs, src/de/with_deserializer.rs): value, then
   `peek` (an `Err` is ignored when `seen_doc_end`), then `finish`.
-* `ReadIter::next` (three identical copies in src/lib.rs), including `let _ = self.src.next()`.
+* `ReadIter::next` (three identical copies in src/lib.rs).
 * The `io::Write` adapter of `to_io_writer_with_options`.
 
 The event source is the pump model (Model/Pump.lean) over the parser items of the text the scanner
@@ -32,6 +32,8 @@ inductive Err where
   | eofSynth
   /-- `Error::multiple_documents` of the single-document check -/
   | multiDoc
+  /-- `Error::UnexpectedSequenceEnd` / `UnexpectedMappingEnd`: a container end where a document should start -/
+  | unexpectedEnd
   /-- the consumer's own (type) error -/
   | client
   /-- model artefact: iteration bound reached (never on a real run) -/
@@ -180,6 +182,13 @@ def finishTail (s : Src) : Outcome × Src :=
   | (some e, s') => (.err e, s')
   | (none, s') => (.ok, s')
 
+/-- `Error::is_trailing_garbage` (fix ae01964): errors reported by the scanner/parser itself — the only ones
+that may be ignored after a document end marker -/
+def Err.isTrailingGarbage : Err → Bool
+  | .pump (.scan _) => true
+  | .pump (.unknownAnchor _) => true
+  | _ => false
+
 /-- `from_reader_with_options` / `with_deserializer_from_reader_with_options` (and the `_valid` /
 `_validate` copies, which add a validation step after `finish`) -/
 def fromReader (c : Client) (fuel : Nat) (s : Src) : Outcome × Src :=
@@ -191,7 +200,8 @@ def fromReader (c : Client) (fuel : Nat) (s : Src) : Outcome × Src :=
     | (.event _, s2) => (.err .multiDoc, s2)
     | (.none, s2) => finishTail s2
     | (.err e, s2) =>
-      if s2.pump.seenDocEnd then finishTail s2   -- "trailing garbage after a document end marker is ignored"
+      -- "trailing garbage after a document end marker is ignored" — scanner errors only
+      if s2.pump.seenDocEnd && e.isTrailingGarbage then finishTail s2
       else (.err e, s2)
 
 /-! ## the entry points as compositions over one pipeline
@@ -282,15 +292,20 @@ def Item.isErr : Item → Bool
 structure Iter where
   src : Src
   finished : Bool := false
-  /-- ghost: a `let _ = self.src.next()` threw an `Err` away -/
-  discardedErr : Bool := false
 deriving Repr
 
 def isNullishScalar : Ev → Bool
   | .scalar v _ _ st _ _ => scalarIsNullish v st
   | _ => false
 
-/-- `ReadIter::next` (`fuel` bounds the `loop` and the consumer) -/
+def isContainerEnd : Ev → Bool
+  | .seqEnd _ => true
+  | .mapEnd _ => true
+  | _ => false
+
+/-- `ReadIter::next` (`fuel` bounds the `loop` and the consumer).  Since fix 80d7f83 an error met while
+consuming a null-like document is returned and ends the iteration; since fix 2d066df a container end where
+a document should start is an error item (followed by `skip_to_next_document`). -/
 def iterNext (c : Client) : Nat → Iter → Option Item × Iter
   | 0, it => (some (.err .fuel), { it with finished := true })
   | fuel + 1, it =>
@@ -299,8 +314,14 @@ def iterNext (c : Client) : Nat → Iter → Option Item × Iter
       match it.src.peek with
       | (.event ev, s) =>
         if isNullishScalar ev then
-          let (r, s') := s.next                                    -- `let _ = self.src.next();`
-          iterNext c fuel { it with src := s', discardedErr := it.discardedErr || r.isErr }   -- `continue`
+          match s.next with
+          | (.err e, s') =>
+            let (_, s'') := s'.finish                                 -- `let _ = self.src.finish();`
+            (some (.err e), { it with src := s'', finished := true })
+          | (_, s') => iterNext c fuel { it with src := s' }         -- `continue`
+        else if isContainerEnd ev then
+          let (found, s') := s.skipToNextDocument
+          (some (.err .unexpectedEnd), { it with src := s', finished := !found })
         else
           match runClient c fuel [] s with
           | (none, s') => (some .ok, { it with src := s' })
@@ -325,24 +346,6 @@ def iterAll (c : Client) (fuel : Nat) : Nat → Iter → List Item × Bool × It
     | (some item, it') =>
       let r := iterAll c fuel calls it'
       (item :: r.1, r.2.1, r.2.2)
-
-/-! ## parser contract used by the single-document theorem -/
-
-/-- Document framing of the parser items: content only inside a document (`st` 0 = outside, 1 = inside
-and no content yet, 2 = inside after content), a document end only after content, an alias never the
-first content of a document; nothing is assumed after a scan error. -/
-def framed : Nat → List RawItem → Bool
-  | _, [] => true
-  | _, .err _ _ :: _ => true
-  | st, .ev raw _ :: rest =>
-    match raw with
-    | .docStart _ => framed 1 rest
-    | .docEnd => st == 2 && framed 0 rest
-    | .streamStart => framed st rest
-    | .streamEnd => framed st rest
-    | .nothing => framed st rest
-    | .alias _ => st == 2 && framed 2 rest
-    | _ => st != 0 && framed 2 rest
 
 /-! ## writer adapter -/
 
